@@ -115,6 +115,9 @@ type Exec struct {
 	inSpec              int
 	ioErrAxiomDone      bool
 	sentinelAxiomDone   bool
+	injDone             map[string]bool
+	pathCleanDone       bool
+	concatDone          bool
 	reachCount          map[string]int
 	pathAxiomsDone      bool
 	assignSrcType       types.Type
@@ -1401,7 +1404,12 @@ func (x *Exec) strConcat(st *State, a, b StrV) StrV {
 	x.quantN++
 	j := Var(fmt.Sprintf("qi_%d", x.quantN), SInt)
 	st.assumeRaw(Forall([]*Term{j}, Implies(And(Le(a.Len, j), Lt(j, Add(a.Len, b.Len))), Eq(Select(arr, j), x.strAt(b, Sub(j, a.Len))))))
-	return StrV{Arr: arr, Off: IntLit(0), Len: n}
+	r := StrV{Arr: arr, Off: IntLit(0), Len: n}
+	if x.concatDone {
+		// identity-level link (only once the vocabulary is in use)
+		st.assumeRaw(Eq(x.strID(st, r), App("strfn_concat", SInt, x.strID(st, a), x.strID(st, b))))
+	}
+	return r
 }
 
 func (x *Exec) selectorExpr(fr *Frame, e *ast.SelectorExpr, st *State, k func(*State, Value)) {
